@@ -391,6 +391,28 @@ func propRT(c RCase) (out pbt.Outcome) {
 		}
 		return fail("export-error", "ExportString fails: %v", err)
 	}
+	// omit-prefix mode (bmnumbers -omit-prefix): the same text without the type's prefix, nothing else removed —
+	// putting the prefix back must give the importable text again
+	if bt := bmnumbers.GetType(c.Type); bt != nil {
+		prefix := bt.ShowPrefix()
+		bare, oerr := n.ExportString(&bmnumbers.BMNumberConfig{OmitPrefix: true})
+		switch {
+		case oerr != nil:
+			return fail("omit-prefix", "ExportString with OmitPrefix fails (%v), without it gives %q", oerr, text)
+		case strings.HasPrefix(text, prefix) && strings.Count(text, prefix) == 1:
+			labels["omit-prefix:checked"] = true
+			if bare != strings.TrimPrefix(text, prefix) {
+				return fail("omit-prefix", "exports as %q, with OmitPrefix as %q: expected %q (prefix %q removed, nothing else)", text, bare, strings.TrimPrefix(text, prefix), prefix)
+			}
+		case !strings.Contains(text, prefix):
+			labels["omit-prefix:text-has-no-prefix"] = true
+			if bare != text {
+				return fail("omit-prefix", "exports as %q (which does not contain the prefix %q), with OmitPrefix as %q", text, prefix, bare)
+			}
+		default:
+			labels["omit-prefix:prefix-inside"] = true
+		}
+	}
 	acc := acceptors(text)
 	if len(acc) != 1 {
 		if d2Pair(acc) {
